@@ -554,6 +554,7 @@ func ruleR19b(c *Ctx) {
 	key := "NewRouter:gate-installed-before-any-route"
 	violated := false
 	nReg, nGate := 0, 0
+	gatedRouters := map[ssa.Value]bool{}
 	pr := &PathRule{
 		Edge: func(pc *PathCtx, s uint64, from *ssa.BasicBlock, si int) (uint64, bool) {
 			for _, f := range pc.edgeFacts(from, si) {
@@ -586,22 +587,43 @@ func ruleR19b(c *Ctx) {
 			if !isReg || !isChiRouterRecv(recvT) {
 				return s
 			}
+			var recvVal ssa.Value
+			if cc.IsInvoke() {
+				recvVal = cc.Value
+			} else if len(cc.Args) > 0 {
+				recvVal = cc.Args[0]
+			}
 			if class == "middleware" {
+				hasGate := false
 				for _, a := range args {
 					for _, v := range variadicElems(a) {
 						if f := closureOf(strip(v), 0); f == ro {
-							nGate++
-							return s | gate
+							hasGate = true
 						}
 					}
 					if f := closureOf(strip(a), 0); f == ro {
-						nGate++
-						return s | gate
+						hasGate = true
 					}
+				}
+				if !hasGate {
+					return s
+				}
+				// Use installs the middleware on the router itself; With only on the router it RETURNS (a `mux.With(ReadOnly)`
+				// whose result is dropped installs nothing)
+				if name == "Use" {
+					nGate++
+					return s | gate
+				}
+				if v, ok := ins.(ssa.Value); ok {
+					gatedRouters[v] = true
+					nGate++
 				}
 				return s
 			}
 			nReg++
+			if recvVal != nil && gatedRouters[strip(recvVal)] {
+				return s // registered on the router returned by With(ReadOnly)
+			}
 			if s&(roFalse|gate) == 0 && !violated {
 				violated = true
 				c.add(rule, key, ci.Pos(), Violated, "a route is registered on the root router on a path where readOnly may be true and the ReadOnly middleware has not been installed yet: chi applies a middleware only to routes registered after it", pc.Trail()...)
